@@ -10,3 +10,10 @@ package searchdomains
 //@   ensures ret0 == resp && !ret1
 //@   ensures[C17:search-domains-always] has(resp.Options, 119)
 //@   ensures[C17:other-options-untouched] forall k uint8: k != 119 ==> ((has(resp.Options, k) <==> old(has(resp.Options, k))) && resp.Options[k] == old(resp.Options[k]))
+
+//@ func domainSearchListHandler6
+//@   implements handler.Handler6
+//@   modifies everything
+//@   ensures ret0 == resp && !ret1
+//@   ensures[C17:search-domains6-always] optn6(resp.(*dhcpv6.Message))[24] == ite(old(optn6(resp.(*dhcpv6.Message))[24]) == 0, 1, old(optn6(resp.(*dhcpv6.Message))[24]))
+//@   ensures[C17:other-options-untouched] forall k uint16: k != 24 ==> (optn6(resp.(*dhcpv6.Message))[k] == old(optn6(resp.(*dhcpv6.Message))[k]) && optlast6(resp.(*dhcpv6.Message))[k] == old(optlast6(resp.(*dhcpv6.Message))[k]))
